@@ -79,17 +79,136 @@ fn counters() -> Counters {
     }
 }
 
+struct Prepared {
+    body: Arc<dyn Fn() + Send + Sync>,
+    stats: Arc<Mutex<Stats>>,
+    bounds: Value,
+    max_perms: usize,
+    max_secs: u64,
+}
+
 fn run_case(case: &Value) -> Value {
     let decomposition = case["mode"].as_str() == Some("decomposition");
     shim_rayon::SEQUENTIAL.store(decomposition, Relaxed);
-    let targets: Vec<u64> = match case["targets"].as_array() {
-        Some(arr) => arr.iter().map(|t| t.as_u64().unwrap()).collect(),
-        None => vec![case["target"].as_u64().unwrap()],
+    let targets: Vec<usize> = match case["targets"].as_array() {
+        Some(arr) => arr.iter().map(|t| t.as_u64().unwrap() as usize).collect(),
+        None => vec![case["target"].as_u64().unwrap() as usize],
     };
-    Value::Array(targets.into_iter().map(|target| run_target(case, target as usize, decomposition)).collect())
+    if decomposition {
+        // no concurrency: one loom execution runs every target of the case, one after the other
+        let prepared: Vec<Prepared> = targets.iter().map(|t| prepare(case, *t)).collect();
+        let splits: Arc<Mutex<Vec<(u64, u64, u64)>>> = Arc::new(Mutex::new(Vec::new()));
+        let bodies: Vec<Arc<dyn Fn() + Send + Sync>> = prepared.iter().map(|p| p.body.clone()).collect();
+        let mut model = loom::model::Builder::new();
+        model.max_branches = 200_000;
+        model.max_threads = 2;
+        model.checkpoint_interval = 1;
+        model.max_permutations = Some(2);
+        let rec = splits.clone();
+        model.check(move || {
+            for body in &bodies {
+                shim_rayon::MAX_SPLIT.store(0, Relaxed);
+                let batches = shim_rayon::SPLIT_BATCHES.load(Relaxed);
+                let ops = shim_atomic::OPS.load(Relaxed);
+                body();
+                rec.lock().unwrap().push((shim_rayon::MAX_SPLIT.load(Relaxed), shim_rayon::SPLIT_BATCHES.load(Relaxed) - batches, shim_atomic::OPS.load(Relaxed) - ops));
+            }
+        });
+        let splits = splits.lock().unwrap();
+        return Value::Array(
+            prepared
+                .iter()
+                .zip(targets.iter())
+                .enumerate()
+                .map(|(ind, (prep, target))| {
+                    let (max_split, batches, ops) = splits.get(ind).copied().unwrap_or((0, 0, 0));
+                    let stats = prep.stats.lock().unwrap();
+                    report(&stats, *target, max_split, None, false, ops, batches, 0, 0, 0, 0)
+                })
+                .collect(),
+        );
+    }
+    Value::Array(targets.into_iter().map(|target| explore_schedules(case, target)).collect())
 }
 
-fn run_target(case: &Value, target: usize, decomposition: bool) -> Value {
+#[allow(clippy::too_many_arguments)]
+fn report(stats: &Stats, target: usize, tasks: u64, bound: Option<usize>, capped: bool, ops: u64, split_batches: u64, batches: u64, spawned: u64, oversize: u64, wall_ms: u64) -> Value {
+    json!({
+        "target": target,
+        "split_batches_per_execution": split_batches,
+        "executions": stats.executions,
+        "distinct_outcomes": stats.outcomes.len(),
+        "mismatches": stats.mismatches,
+        "first_mismatch": stats.first_mismatch,
+        "draw_problems": stats.draw_problems,
+        "first_draw_problem": stats.first_draw_problem,
+        "errors": stats.errors,
+        "first_error": stats.first_error,
+        "max_concurrent_tasks": tasks,
+        "preemption_bound": bound,
+        "capped": capped,
+        "atomic_ops": ops,
+        "parallel_batches": batches,
+        "tasks_spawned": spawned,
+        "oversize_batches_per_execution": oversize,
+        "wall_ms": wall_ms,
+    })
+}
+
+fn explore_schedules(case: &Value, target: usize) -> Value {
+    let prep = prepare(case, target);
+    let bound_for = |tasks: u64| -> Option<usize> {
+        let key = format!("{}", tasks.min(4));
+        match &prep.bounds[&key] {
+            Value::Null => None,
+            other => Some(other.as_u64().unwrap() as usize),
+        }
+    };
+    let start = Instant::now();
+    // probe: one execution, to learn the size of the largest concurrent batch
+    let before = counters();
+    shim_rayon::MAX_TASKS.store(0, Relaxed);
+    let splits_before = shim_rayon::SPLIT_BATCHES.load(Relaxed);
+    let mut probe = loom::model::Builder::new();
+    probe.max_branches = 200_000;
+    probe.max_threads = 12;
+    // loom tests its caps before an execution, every `checkpoint_interval` executions
+    probe.checkpoint_interval = 1;
+    probe.max_permutations = Some(2);
+    let body = prep.body.clone();
+    probe.check(move || body());
+    let tasks = shim_rayon::MAX_TASKS.load(Relaxed);
+    let split_batches = shim_rayon::SPLIT_BATCHES.load(Relaxed) - splits_before;
+    let probe_counters = counters();
+    *prep.stats.lock().unwrap() = Stats::default();
+    let mut builder = loom::model::Builder::new();
+    builder.max_branches = 200_000;
+    builder.max_threads = 12;
+    builder.preemption_bound = bound_for(tasks);
+    builder.checkpoint_interval = 1;
+    builder.max_permutations = Some(prep.max_perms + 1);
+    builder.max_duration = Some(Duration::from_secs(prep.max_secs));
+    let body = prep.body.clone();
+    builder.check(move || body());
+    let after = counters();
+    let stats = prep.stats.lock().unwrap();
+    let capped = stats.executions as usize >= prep.max_perms || start.elapsed() >= Duration::from_secs(prep.max_secs);
+    report(
+        &stats,
+        target,
+        tasks,
+        bound_for(tasks),
+        capped,
+        after.ops - probe_counters.ops,
+        split_batches,
+        after.batches - probe_counters.batches,
+        after.tasks - probe_counters.tasks,
+        probe_counters.oversize - before.oversize,
+        start.elapsed().as_millis() as u64,
+    )
+}
+
+fn prepare(case: &Value, target: usize) -> Prepared {
     let tree = Tree::from_replay(&case["tree"]);
     let method = match case["method"].as_str().unwrap() {
         "full" => SolveMethod::Full,
@@ -122,13 +241,6 @@ fn run_target(case: &Value, target: usize, decomposition: bool) -> Value {
         })
         .unwrap_or_default();
     let compare_draws = case["expect_draws"].is_array();
-    let bound_for = |tasks: u64| -> Option<usize> {
-        let key = format!("{}", tasks.min(4));
-        match &case["preemption_bounds"][&key] {
-            Value::Null => None,
-            other => Some(other.as_u64().unwrap() as usize),
-        }
-    };
     let max_perms = case["max_permutations"].as_u64().unwrap_or(200_000) as usize;
     let max_secs = case["max_seconds"].as_u64().unwrap_or(120);
 
@@ -204,57 +316,13 @@ fn run_target(case: &Value, target: usize, decomposition: bool) -> Value {
         }
     };
 
-    let start = Instant::now();
-    // probe: one execution, to learn the size of the largest concurrent batch
-    let before = counters();
-    shim_rayon::MAX_TASKS.store(0, Relaxed);
-    shim_rayon::MAX_SPLIT.store(0, Relaxed);
-    let splits_before = shim_rayon::SPLIT_BATCHES.load(Relaxed);
-    let mut probe = loom::model::Builder::new();
-    probe.max_branches = 200_000;
-    probe.max_threads = 12;
-    // loom tests its caps before an execution, every `checkpoint_interval` executions
-    probe.checkpoint_interval = 1;
-    probe.max_permutations = Some(2);
-    probe.check(body.clone());
-    let tasks = if decomposition { shim_rayon::MAX_SPLIT.load(Relaxed) } else { shim_rayon::MAX_TASKS.load(Relaxed) };
-    let split_batches = shim_rayon::SPLIT_BATCHES.load(Relaxed) - splits_before;
-    let probe_counters = counters();
-    if !decomposition {
-        *stats.lock().unwrap() = Stats::default();
-        let mut builder = loom::model::Builder::new();
-        builder.max_branches = 200_000;
-        builder.max_threads = 12;
-        builder.preemption_bound = bound_for(tasks);
-        builder.checkpoint_interval = 1;
-        builder.max_permutations = Some(max_perms + 1);
-        builder.max_duration = Some(Duration::from_secs(max_secs));
-        builder.check(body);
+    Prepared {
+        body: Arc::new(body),
+        stats,
+        bounds: case["preemption_bounds"].clone(),
+        max_perms,
+        max_secs,
     }
-    let after = counters();
-    let stats = stats.lock().unwrap();
-    let capped = !decomposition && (stats.executions as usize >= max_perms || start.elapsed() >= Duration::from_secs(max_secs));
-    json!({
-        "target": target.get(),
-        "split_batches_per_execution": split_batches,
-        "executions": stats.executions,
-        "distinct_outcomes": stats.outcomes.len(),
-        "mismatches": stats.mismatches,
-        "first_mismatch": stats.first_mismatch,
-        "draw_problems": stats.draw_problems,
-        "first_draw_problem": stats.first_draw_problem,
-        "errors": stats.errors,
-        "first_error": stats.first_error,
-        "max_concurrent_tasks": tasks,
-        "preemption_bound": if decomposition { None } else { bound_for(tasks) },
-        "capped": capped,
-        "atomic_ops": after.ops - if decomposition { before.ops } else { probe_counters.ops },
-        "parallel_batches": after.batches - probe_counters.batches,
-        "tasks_spawned": after.tasks - probe_counters.tasks,
-        "oversize_batches_per_execution": probe_counters.oversize - before.oversize,
-        "exclusive_batches_per_execution": probe_counters.exclusive - before.exclusive,
-        "wall_ms": start.elapsed().as_millis() as u64,
-    })
 }
 
 fn main() {
